@@ -99,8 +99,8 @@ def random_config(rng, allow_virt=True, allow_lpae=True, archs=(6, 7, 7, 7, 5), 
             cfg['has_imp_def_reset_vector'] = True
             cfg['impdef_reset_vector'] = rng.choice([0, 0x100, 0xFFFF0000, CODE])
         if rng.random() < 0.3:
-            cfg['impdef_irq_vector'] = rng.choice([0x18, 0x40, 0x80, 0x200])
-            cfg['impdef_fiq_vector'] = rng.choice([0x1C, 0x60, 0xA0, 0x240])
+            cfg['impdef_irq_vector'] = rng.choice([0x18, 0x40, 0x80, 0x200, 0])
+            cfg['impdef_fiq_vector'] = rng.choice([0x1C, 0x60, 0xA0, 0x240, 0])
         if rng.random() < 0.1:
             cfg['is_armv7r_profile'] = True
         if rng.random() < 0.1:
